@@ -548,24 +548,62 @@ func r17FieldsSameProvenance(c *RuleCtx, fn *ssa.Function, prm *ssa.Parameter) b
 			okAll = false
 		}
 	}
-	// mergeToWriter's args literal binds "fieldsSame" to mergeFields' first result
-	mtw := p.Func("mergeToWriter")
-	bound := false
-	if mtw != nil {
-		eachInstr(mtw, func(_ *ssa.BasicBlock, in ssa.Instruction) {
-			if mu, ok := in.(*ssa.MapUpdate); ok {
-				if k, ok := constString(mu.Key); ok && k == "fieldsSame" {
-					if ex, ok := root(mu.Value).(*ssa.Extract); ok {
-						if call, ok := ex.Tuple.(*ssa.Call); ok {
-							if f := call.Call.StaticCallee(); f != nil && namedFn(f, "mergeFields") && ex.Index == 0 {
-								bound = true
-							}
-						}
-					}
+	// the args literal of the merge binds "fieldsSame" to mergeFields' first
+	// result (directly in mergeToWriter, or in a helper that is handed it)
+	var fromMergeFields func(v ssa.Value, depth int) bool
+	fromMergeFields = func(v ssa.Value, depth int) bool {
+		if depth > 3 {
+			return false
+		}
+		switch x := root(v).(type) {
+		case *ssa.Extract:
+			if call, ok := x.Tuple.(*ssa.Call); ok {
+				if f := call.Call.StaticCallee(); f != nil && namedFn(f, "mergeFields") && x.Index == 0 {
+					return true
 				}
+			}
+		case *ssa.Parameter:
+			g := x.Parent()
+			pi := -1
+			for i, q := range g.Params {
+				if q == x {
+					pi = i
+				}
+			}
+			sites := p.callersOf(g)
+			if pi < 0 || len(sites) == 0 || g.Object() == nil || g.Object().Exported() {
+				return false
+			}
+			for _, cs := range sites {
+				if par := cs.Parent(); par.Synthetic != "" && len(p.callersOf(par)) == 0 {
+					continue
+				}
+				args := cs.Common().Args
+				if cs.Common().IsInvoke() || pi >= len(args) || !fromMergeFields(args[pi], depth+1) {
+					return false
+				}
+			}
+			return true
+		}
+		return false
+	}
+	bound, nBind := true, 0
+	for _, g := range p.ZapFuncs {
+		eachInstr(g, func(_ *ssa.BasicBlock, in ssa.Instruction) {
+			mu, ok := in.(*ssa.MapUpdate)
+			if !ok {
+				return
+			}
+			if k, ok := constString(mu.Key); !ok || k != "fieldsSame" {
+				return
+			}
+			nBind++
+			if !fromMergeFields(mu.Value, 0) {
+				bound = false
 			}
 		})
 	}
+	bound = bound && nBind >= 1
 	return okAll && nCallers > 0 && bound
 }
 
@@ -765,6 +803,12 @@ func structEq(a, b ssa.Value, depth int) bool {
 	case *ssa.Convert:
 		y, ok := rb.(*ssa.Convert)
 		return ok && types.Identical(x.Type(), y.Type()) && structEq(x.X, y.X, depth+1)
+	case *ssa.FieldAddr:
+		y, ok := rb.(*ssa.FieldAddr)
+		return ok && x.Field == y.Field && structEq(x.X, y.X, depth+1)
+	case *ssa.Field:
+		y, ok := rb.(*ssa.Field)
+		return ok && x.Field == y.Field && structEq(x.X, y.X, depth+1)
 	case *ssa.Const:
 		y, ok := rb.(*ssa.Const)
 		return ok && x.Value != nil && y.Value != nil && x.Value.ExactString() == y.Value.ExactString()
